@@ -515,6 +515,9 @@ func storeKey(kind int, id uint64) string {
 
 var mr *miniredis.Miniredis
 
+// number of cases that hit the watchdog; generation stops after a few (each costs seconds)
+var timeouts int
+
 func redisStore(ctx context.Context) storage.Storage {
 	if mr == nil {
 		var err error
@@ -922,7 +925,8 @@ func execCase(cs string) (obs string) {
 	}()
 	select {
 	case <-done:
-	case <-time.After(20 * time.Second):
+	case <-time.After(3 * time.Second):
+		timeouts++
 		g.mu.Lock()
 		g.timeout = true
 		g.cond.Broadcast()
@@ -1002,6 +1006,9 @@ func main() {
 		}
 		if i := strings.Index(cs, " ## "); i >= 0 {
 			cs = cs[:i]
+		}
+		if timeouts >= 3 {
+			return
 		}
 		obs := execAny(cs)
 		dk := ""
